@@ -22,7 +22,7 @@ PROFILES = {
     "one1v":    dict(N=1, L=2, cap=0, head=1, manual=1, pay=3, ctx=0, feat="PSHGV", defmode=2),
     "big9":     dict(N=9, L=7, cap=3, head=1, manual=0, pay=3, ctx=1, feat="PSHG"),
     "man3":     dict(N=3, L=2, cap=2, head=1, manual=1, pay=0, ctx=0, feat="PSHG"),
-    "nolog3":   dict(N=3, L=2, cap=2, head=1, manual=1, pay=1, ctx=0, feat="PSH"),
+    "nolog3":   dict(N=3, L=2, cap=2, head=1, manual=1, pay=0, ctx=0, feat="PSH", cfgorder=1, script_seed="man3"),      # twin of man3 without the log interface
     "plain3":   dict(N=3, L=1, cap=0, head=1, manual=0, pay=0, ctx=0, feat=""),
     "all4":     dict(N=4, L=2, cap=4, head=1, manual=1, pay=4, ctx=2, feat="AG", std="c++17"),
 }
@@ -195,6 +195,8 @@ def gen_plan_enum(p, rng, limit):
         elif pl and idx % 4 == 3:
             ds = ds + [_key(1, pl[0][1]) + ":X"]          # the first task's transition is vetoed: its origin stays active
         ls.append("@0 update | %s" % " ; ".join(ds))
+        if pl and idx % 8 == 7:
+            ls.append("@0 update")        # a cycle without any report: nothing may fire from a consumed success
         ls.append("@0 react 1 | %s" % " ; ".join(d.replace("5.", "8.").replace("4.", "7.").replace("6.", "10.") for d in ds))
         ls.append("@0 update")
         out += ls
@@ -283,8 +285,7 @@ def gen_lifecycle(p, rng, limit):
 
 def scenarios_for(pname, p, tier, seed):
     """-> list of (scenario name, script text)"""
-    rng = random.Random(seed * 7919 + hash(pname) % 1000)
-    rng = random.Random("%s-%d" % (pname, seed))
+    rng = random.Random("%s-%d" % (p.get("script_seed", pname), seed))      # twins share their scripts
     q = tier == "quick"
     big = p["N"] >= 9
     sc = []
@@ -383,10 +384,73 @@ def run_pool(tier, seed, names=None, force=False):
         for n, runs, summ in ex.map(one, jobs):
             res["profiles"][n]["runs"] = runs
             res["profiles"][n]["validation"] = summ
+    run_twins(res, cdir, key)
     res["wall_s"] = round(time.time() - t0, 1)
     with open(rfile, "w") as f:
         json.dump(res, f, indent=1)
     return res
+
+
+TWINS = [("man3", "nolog3", ["guards", "activation", "plans", "capacity"])]
+
+
+def _bursts(raw_path):
+    """executions of a single-instance raw trace as lists of bursts (call .. ret)"""
+    segs, _ = traceprep.executions(traceprep.load(raw_path))
+    out = []
+    for cfg, evs in segs:
+        bursts, cur = [], None
+        for e in evs:
+            if e["e"] == "mark":
+                continue
+            if e["e"] == "call":
+                cur = [e]
+                bursts.append(cur)
+            elif cur is not None:
+                cur.append(e)
+        out.append((cfg, bursts))
+    return out
+
+
+def write_twin_trace(raw_a, raw_b, out_path):
+    """interleave the bursts of two builds of the same script: A as instance 0 (leader), B as instance 1"""
+    ea, eb = _bursts(raw_a), _bursts(raw_b)
+    n = 0
+    with open(out_path, "w") as f:
+        for (cfga, ba), (cfgb, bb) in zip(ea, eb):
+            f.write(json.dumps(cfga, separators=(",", ":")) + "\n")
+            f.write('{"e":"mark","k":"twins"}\n')
+            j = 0
+            for burst in ba:
+                for e in burst:
+                    f.write(json.dumps(dict(e, i=0), separators=(",", ":")) + "\n")
+                c = burst[0]
+                if j < len(bb) and (bb[j][0]["op"], bb[j][0]["a"], bb[j][0]["b"]) == (c["op"], c["a"], c["b"]):
+                    for e in bb[j]:
+                        f.write(json.dumps(dict(e, i=1), separators=(",", ":")) + "\n")
+                    j += 1
+            n += 1
+    return n
+
+
+def run_twins(res, cdir, key):
+    """the same scripts on a build with and without the log interface must behave identically (CrossTrace, C16)"""
+    for a, b, families in TWINS:
+        pa, pb = res["profiles"].get(a), res["profiles"].get(b)
+        if not pa or not pb or not pa.get("built") or not pb.get("built"):
+            continue
+        for fam in families:
+            ra, rb = pa["runs"].get(fam), pb["runs"].get(fam)
+            if not ra or not rb:
+                continue
+            tw = os.path.join(cdir, "twin.%s.%s.%s.ndjson" % (a, b, fam))
+            write_twin_trace(ra["raw"], rb["raw"], tw)
+            x = vlib.validate_cross(tw, "%s.twin.%s" % (key, fam))
+            rb.setdefault("twin", {})["trace"] = tw
+            if x["error"]:
+                pb["validation"]["error"] = (pb["validation"].get("error") or "") + x["error"][-500:]
+            for (prop, ln, why) in x["findings"]:
+                rb["findings"].append([prop, ln, why + " [twin trace %s]" % os.path.basename(tw)])
 
 
 def prune_pool_cache(keep=6):
